@@ -153,7 +153,7 @@ def xtable(draw):
             fams.add(f)
             chosen.append(o)
         # UNSIGNED, IDENTITY (n, m) and CHARACTER SET x belong to the type: the grammar accepts them only directly after it
-        chosen.sort(key=lambda o: {"unsigned": 0, "identity": 1, "character_set": 1}.get(o, 2))
+        chosen.sort(key=lambda o: {"unsigned": 0, "identity": 1, "character_set": 2}.get(o, 3))
         cols.append({"name": nm, "type": t, "size": size, "x": chosen})
     alters = []
     for j in range(draw(st.integers(0, 2))):
@@ -204,7 +204,7 @@ def block(draw, kinds=BLOCK_KINDS, small=True):
         c = draw(c18.case_strategy())
     elif k == "set":
         c = {"name": draw(gen.plain_ident(min_len=2)), "value": draw(st.one_of(gen.plain_ident(), st.integers(0, 999).map(str))),
-             "eq": draw(st.booleans())}
+             "eq": draw(st.booleans()), "sp": draw(st.integers(0, 3)) == 0}
     elif k == "drop":
         c = {"schema": draw(st.one_of(st.none(), gen.plain_ident())), "name": draw(gen.plain_ident(min_len=2))}
     elif k == "dtable":
@@ -219,7 +219,7 @@ def block(draw, kinds=BLOCK_KINDS, small=True):
     return {"k": k, "c": c}
 
 
-def statements(b, index=0):
+def statements(b, index=0, set_tokens=False):
     """token lists of the block's statements. index: position of the block in its script; ALTER blocks get
     table names no other block can carry (an ALTER addresses tables by name across the whole script)."""
     c01, c02, c04, c09, c17, c18 = _props()
@@ -244,7 +244,12 @@ def statements(b, index=0):
     if k == "dtable":
         return [_c11().merge_glue(_c11().PROP.statement(c)[0])]
     if k == "set":
-        return [K("SET") + [I(c["name"])] + ([EQ] if c["eq"] else []) + [V(c["value"]), END]]
+        toks = K("SET") + [I(c["name"])] + ([EQ] if c["eq"] else []) + [V(c["value"]), END]
+        # SET statements are handled line by line by the library: always one line, verbatim (known finding K19)
+        if set_tokens:
+            return [toks]
+        line = render_script([toks], None).rstrip("\n")
+        return [line[:-1] + " ;" if c.get("sp") else line]
     if k == "drop":
         return [K("DROP", "TABLE") + [I((c["schema"] + "." if c["schema"] else "") + c["name"]), END]]
     if k == "like":
